@@ -52,8 +52,33 @@ def call_args(t):
   return args
 
 
+def callee_info(t):
+  """FuncInfo of the repo function / method called by `t` (None for external or unresolved callees)."""
+  from sa import model
+  f = t.a[0]
+  q = f.a[1] if f.k == 'bound' else (f.a[0] if f.k == 'func' else None)
+  if q is None:
+    return None
+  try:
+    return model.program().funcs.get(q)
+  except Exception:
+    return None
+
+
 def call_kwargs(t):
-  return dict(t.a[2])
+  """Explicitly passed arguments by parameter name.
+
+  For external callees these are the keyword arguments as written; for resolved repo callees the
+  positionally passed arguments are included under their parameter names, so `f(x, axis)` and
+  `f(x, axis=axis)` answer `.get('axis')` alike."""
+  out = dict(t.a[2])
+  fi = callee_info(t)
+  if fi is not None and fi.args.vararg is None:
+    names = [x.arg for x in fi.args.posonlyargs + fi.args.args]
+    for n, v in zip(names, t.a[1]):
+      if v.k != 'star':
+        out.setdefault(n, v)
+  return out
 
 
 def arg(t, index, name=None):
@@ -125,3 +150,14 @@ def literal_list(t):
 
 def loc_of(t, default=None):
   return t.loc if t.loc is not None else default
+
+
+def repo_call(callee, args=(), kwargs=(), cls=None, loc=None):
+  """Reference `call` term for a repo callee, with its arguments in the evaluator's canonical form."""
+  from sa import model
+  t = sym.mk_call(callee, tuple(args), tuple(kwargs.items() if isinstance(kwargs, dict) else kwargs), cls=cls, loc=loc)
+  fi = callee_info(t)
+  if fi is None:
+    return t
+  a, k = sym.Evaluator(model.program()).canonical_args(fi, list(t.a[1]), list(t.a[2]))
+  return sym.mk_call(callee, a, k, cls=cls, loc=loc)
